@@ -133,10 +133,14 @@ def gen_dataset(prop: str, idx: int) -> dict:
             def sp(name, parent, st, en):
                 sid = f"{tid}-{cnt[0]:02d}"
                 cnt[0] += 1
+                app = "svc-" + name[0]
+                if idx >= SPECIAL_BASE + 600 and rng.random() < 0.3:
+                    # present-but-empty application name
+                    app = ""
                 d = {"trace_id": tid, "span_id": sid, "name": name,
                      "start_time_unix_nano": st, "end_time_unix_nano": en,
                      "attributes": [{"key": "app.service", "value": {
-                         "Value": {"StringValue": "svc-" + name[0]}}}]}
+                         "Value": {"StringValue": app}}}]}
                 if parent is not None:
                     d["parent_span_id"] = parent
                 spans.append(d)
